@@ -21,7 +21,9 @@ RULE = (
     "whole index space plus a margin is swept. A case is non-trivial when its face grid is not "
     "square or it has >= 2 grid kinds of different shape; distinct = distinct spec hash. The "
     "enumeration covers every structured shape 1..5 x 1..5 per convention and strip meshes of "
-    "1..12 faces with and without an edge dimension."
+    "1..12 faces with and without an edge dimension. Sub-check large_grids: CF 1-D grids of up "
+    "to 300000 x 300000 cells (only the two coordinate axes exist), probed at landmarks around "
+    "2**31, 2**32, the ends and random positions; non-trivial there = at least 2**31 cells."
 )
 ASSUMPTIONS = [
     "datasets are valid instances of their convention (generator is constructive)",
@@ -168,5 +170,76 @@ def check_enum(case, ctx):
     check_spec(spec, ctx)
 
 
-SUBS = [Sub("datasets", strategy, check_spec, quick=150, thorough=1000)]
+# ---- very large grids (index arithmetic must not wrap at 2**31 or 2**32)
+
+LARGE_SIDES = [1, 2, 3, 1000, 46340, 46341, 65535, 65536, 65537, 92682, 100000, 250000]
+
+
+@st.composite
+def large_cases(draw):
+    side = st.one_of(st.sampled_from(LARGE_SIDES), st.integers(1, 300000))
+    ny, nx = draw(side), draw(side)
+    n = ny * nx
+    landmarks = [0, 1, n - 1, n // 2, nx - 1, nx, 2 ** 31 - 1, 2 ** 31, 2 ** 31 + 1,
+                 2 ** 32 - 1, 2 ** 32, 2 ** 32 + 1, n - nx, n - nx - 1]
+    probes = [p for p in landmarks if 0 <= p < n]
+    probes += draw(st.lists(st.integers(0, n - 1), min_size=4, max_size=12))
+    outside = [n, n + 1, n + nx, -1, 2 * n, n + 2 ** 31, n + 2 ** 32] + \
+        [p for p in (2 ** 31, 2 ** 32) if p >= n]
+    return {"ny": ny, "nx": nx, "probes": sorted(set(probes)), "outside": sorted(set(outside)),
+            "names": draw(st.sampled_from(S.CF1D_NAMES))}
+
+
+def check_large(case, ctx):
+    """A CF 1-D grid has only two 1-D coordinate arrays, so grids of 10**10 cells are cheap to
+    describe: their index arithmetic is checked against Python's exact integers."""
+    import numpy
+    import xarray
+    from vf.common import import_emsarray
+    import_emsarray()
+    import emsarray.conventions as conventions
+    ny, nx, names = case["ny"], case["nx"], case["names"]
+    n = ny * nx
+    lat = -80.0 + 160.0 * numpy.arange(ny, dtype=numpy.float64) / max(ny, 1)
+    lon = 0.0 + 359.0 * numpy.arange(nx, dtype=numpy.float64) / max(nx, 1)
+    ds = xarray.Dataset(
+        coords={names["lat"]: ([names["y"]], lat, {"units": "degrees_north", "standard_name": "latitude"}),
+                names["lon"]: ([names["x"]], lon, {"units": "degrees_east", "standard_name": "longitude"})},
+        attrs={"Conventions": "CF-1.8"})
+    ctx.at("C01.grid_size")
+    conv = ds.ems
+    ctx.check(isinstance(conv, conventions.CFGrid1D), "C01.grid_kinds",
+              lambda: f"a {ny} x {nx} CF 1-D grid is bound as {type(conv).__name__}")
+    kind = conv.default_grid_kind
+    size = conv.grid_size[kind]
+    ctx.check(size == n and not isinstance(size, bool), "C01.grid_size",
+              lambda: f"grid_size of a {ny} x {nx} grid = {size!r}, that is not {n}")
+    for lin in case["probes"]:
+        want = divmod(lin, nx)
+        ctx.at("C01.wind")
+        native = conv.wind_index(lin, grid_kind=kind)
+        ctx.check(tuple(native) == want, "C01.wind",
+                  lambda: f"wind_index({lin}) on a {ny} x {nx} grid = {native!r}, expected {want!r}")
+        ctx.at("C01.ravel")
+        back = conv.ravel_index(want)
+        ctx.check(back == lin, "C01.ravel",
+                  lambda: f"ravel_index({want!r}) on a {ny} x {nx} grid = {back!r}, expected {lin}")
+    for lin in case["outside"]:
+        ctx.at("C01.reject_linear")
+        ctx.raises("C01.reject_linear", lambda: conv.wind_index(lin, grid_kind=kind),
+                   f"wind_index({lin}) on a {ny} x {nx} grid of {n} cells")
+    for native in [(ny, 0), (0, nx), (ny - 1, nx), (-1, 0), (ny + 2 ** 32, 0)]:
+        ctx.at("C01.reject_native")
+        ctx.raises("C01.reject_native", lambda: conv.ravel_index(native),
+                   f"ravel_index({native!r}) on a {ny} x {nx} grid")
+    ctx.label("cells>=2**32" if n >= 2 ** 32 else "cells>=2**31" if n >= 2 ** 31 else "cells<2**31")
+    ctx.nontrivial(n >= 2 ** 31)
+
+
+def large_strategy(tier):
+    return large_cases()
+
+
+SUBS = [Sub("datasets", strategy, check_spec, quick=150, thorough=1000),
+        Sub("large_grids", large_strategy, check_large, quick=60, thorough=600)]
 ENUMS = [Enum("all_shapes", enum_cases, check_enum, exhaustive_in=("quick", "thorough"))]
